@@ -62,7 +62,7 @@ def run(ctx):
     ins = inputs_for(ctx)
     impl_lines = [oracle(ctx, s) for s in ins]
     if ctx.model.available:
-        streams.s_lex(ctx, ins, impl_lines)
+        streams.s_lex(ctx, ins, impl_lines, project=True)
         short_ins = [s for s in ins if len(s) <= 40][: ctx.n(600, 8000)]
         streams.s_re(ctx, short_ins)
     else:
